@@ -17,6 +17,19 @@ RULE = ("cases cycle through all 21 (ExchangeId, SubKind) arms of DynamicStreams
         "through THE TRANSFORMER THE REPOSITORY BINDS to the pair: the harness projects the transformer type out of <E as StreamSelector<Instrument, Kind>>::Stream "
         "(= ExchangeWsStream<T>) and drives T's ExchangeTransformer::init, serde into T's own associated Transformer::Input type, and T's Transformer::transform - it names neither "
         "the transformer nor the venue message type (all 21 pairs x 3 instrument types, the Binance L2 transformers included). "
+        "After the N random cases a separately seeded INPUT-DOMAIN family of N/4 cases (ids `<n>-dom<class>-..`; the random cases are unchanged by it), again cycling over "
+        "the 21 pairs, with the instrument-set class walking through: 0 the EMPTY set, 1 one instrument whose base and quote are the same asset (or differ only in case), "
+        "2 30-40 instruments with numbered names (btc1 a prefix of btc12; a1+2usd vs a12+usd), 3 names differing only in case + the same subscription twice, "
+        "4 one base/quote under EVERY instrument kind the builder accepts for the pair (Okx: spot, perpetual, two futures expiries, options differing only in strike / only in "
+        "call-put / only in expiry; Gateio futures three expiries, options six contracts) plus prefix relatives (bt+cusd, b+tc, btc+us, btc+usdc), 5 a small random set; "
+        "formatted 50 % / verbatim 25 % / un-keyed 25 %; 4-8 messages: 45 % a subscribed market, 10 % an outsider, 17 % a SIBLING (same base/quote, another kind / expiry / strike / "
+        "C-P; a base extended by one char on single-kind venues), 28 % further mutations (first char dropped, char prepended, ONE letter case-flipped, kind suffix dropped or "
+        "`-SWAP` appended, last digit changed); on the venues whose payload names its channel (Okx, Bitmex, Gateio) 22 % of the messages on ANOTHER channel (upper-cased, last char "
+        "dropped, or one of tickers / bbo-tbt / books / trade / trades / Trades / quote / spot.book_ticker / spot.trades / futures.trades / options.trades / futures.book_ticker); "
+        "prices and amounts 55 % from exact extremes (1e12, 2^40+1/2, 2^52, 123456789.015625, 2^-20, 2^-27, 2^-10; for the Decimal-valued L1 / L2 levels also 0.00000001, "
+        "123456789012.12345678, 99999999999.99999999, 31415.92653589793), amount 0 (`0`, `0.0`, `0.000`) in 15 % of the items; exchange times from base 0 / 1000 / 1.7e12 / 4.1e12 ms, "
+        "each item equal to the previous one (40 %), one step less, one step more, or a jump; batches of 0 / 1 / 2 / 3 / 5 trades; Bitfinex channel ids from 0 and u32::MAX. "
+        "corpus/C13/domain.ops holds one hand-written case per class. "
         "A case is distinct by the SHA-1 of its op lines and non-trivial when the implementation's trace shows at least two different "
         "observation blocks")
 ASSUMPTIONS = [
@@ -34,6 +47,11 @@ ASSUMPTIONS = [
     "prices/amounts are multiples of 1/8 (exact in f64 and Decimal; f64 parsing is not modelled); Kraken times are multiples of 125 ms "
     "(its seconds-as-f64 timestamps are then exact); the sign of PublicTrade.amount is not constrained by the spec (see LEVEL_NOTE): it is an "
     "observation (`amt`, `sgn`) compared between code and model only; theorem amount_sign_convention states the convention per connector",
+    "exchange times are >= 0 ms (the venues' epoch fields are deserialised as u64: a negative time is not a message; harness and drivers answer `bad-op`); Kraken's "
+    "seconds-as-decimal-string times go through f64 (Duration::from_secs_f64 truncates): a time that is not a multiple of 125 ms can come out 1 ms (1 us) early - outside "
+    "the generator, reported as a candidate finding by the input-domain audit, not constrained here",
+    "a message on another channel than the one the subscription kind is published under (possible only where the payload names its channel: Okx arg.channel, Gateio channel, "
+    "Bitmex table) is not a message for a subscribed (market, kind): the spec driver demands the unidentifiable error for it whatever market it names (theorem `rejected`)",
     "verbatim path (MarketInstrumentData): the supplied name_exchange IS the venue symbol as far as the property is concerned (the user supplies it; nothing "
     "normalises it: lowercase_verbatim_name_is_rejected); a `sub` line is all-formatted, all-verbatim or all-un-keyed (one Rust subscription list has one instrument type; "
     "the theorems cover arbitrary mixtures of formatted and verbatim)",
@@ -83,6 +101,12 @@ def signature(ops, k, key, impl_line, spec_line):
     elif "unidentifiable" in impl_line or impl_line.startswith("nev 1"):
         cls = "subscribed-market-rejected"
     rep = " rep=verbatim" if any(t.startswith("@") for t in sub[3:]) else (" rep=unkeyed" if any(t.startswith("=") for t in sub[3:]) else "")
+    # a message on another channel than the subscribed kind's (venues whose payload names its channel)
+    venue_chan = {"okx": "trades", "bitmex": "trade", "gateio_spot": "spot.trades", "gateio_options": "options.trades"}
+    op = ops[k].split() if 0 <= k < len(ops) else []
+    if len(op) >= 3 and op[0] == "msg" and (exch in venue_chan or exch.startswith("gateio_")):
+        if op[1] != venue_chan.get(exch, "futures.trades"):
+            cls = "other-channel"
     if impl_line.startswith("deser-error"):
         cls = "message-not-deserialised"
     return f"clause={clause} connector={exch} kind={kind} input={cls}{rep}"
